@@ -350,6 +350,8 @@ def reasm_c03(tier, seed):
         for (p, line, trn, _) in bad:
             if recs[line - 1].get("kind") == "panic":
                 npanic += 1
+                if npanic > 3:
+                    continue
                 path = os.path.join(REPLAYS, "C03-reasm-%d-%d.json" % (seed, trn))
                 os.makedirs(REPLAYS, exist_ok=True)
                 with open(os.path.join(out, "cases.ndjson")) as f:
